@@ -453,12 +453,22 @@ impl Exe {
                 if let Some(ci) = ci {
                     self.ctxs.borrow_mut()[ci].borrowed.push((p, b.clone()));
                 }
-                Some(String::from_utf8_lossy(&b).to_string())
+                let text = String::from_utf8_lossy(&b).to_string();
+                self.check_internal_error(&text, what);
+                Some(text)
             }
             Err(e) => {
                 self.set_fail("c17:string-invalid", format!("{} is not a valid NUL-terminated UTF-8 string: {}", what, e));
                 None
             }
+        }
+    }
+    /// Every native function of a case is registered through the API and only called while the API is
+    /// driving the interpreter (tsrun_step/run/call/call_method): the trampoline's "lost my context /
+    /// my id" errors can never be the answer to a legitimate call.
+    pub fn check_internal_error(&self, text: &str, what: &str) {
+        if text.contains("Native callback called without") || text.contains("Native callback not found") {
+            self.set_fail("c17:native-call-lost-context", format!("a legitimate call of a registered native function failed inside the API ({}): {:?}", what, text));
         }
     }
     pub fn live_ctx(&self, sel: i64) -> Option<usize> {
